@@ -12,8 +12,8 @@ BIN = ['add', 'sub', 'mul', 'div', 'rem', 'addassign', 'subassign', 'mulassign',
 UN = ['roundtrip', 'iszero', 'tou64', 'toi64', 'tousize', 'fromu64', 'fromi64', 'fromusize', 'numcast', 'display', 'radix']
 CONST = ['zero', 'one', 'minv', 'maxv', 'default']
 SIGNED = ['neg', 'abs', 'signum', 'ispos', 'isneg']
-FBIN = ['add', 'sub', 'mul', 'div', 'rem', 'addassign', 'mulassign', 'pcmp', 'eq']
-FUN = ['roundtrip', 'neg', 'iszero', 'tou64', 'toi64', 'fromu64', 'fromi64', 'display']
+FBIN = ['add', 'sub', 'mul', 'div', 'rem', 'addassign', 'subassign', 'mulassign', 'divassign', 'remassign', 'pcmp', 'eq']
+FUN = ['roundtrip', 'neg', 'iszero', 'tou64', 'toi64', 'fromu64', 'fromi64', 'numcast', 'numcasti', 'radix', 'display']
 
 
 def boundary(n):
